@@ -58,7 +58,10 @@ def check_group(spec, preload):
         pre.append(x)
         buf._queue.put(x, delay=not isinstance(x, tuple))
     batch = [ev(k, n, i) for i, (k, n) in enumerate(spec)]
-    got = buf._group_events(list(batch))
+    try:
+        got = buf._group_events(list(batch))
+    except Exception as e:  # noqa: BLE001  (the reader thread would die here: the whole batch and everything after it is lost)
+        return [f"batch {spec} queue {preload}: _group_events raised {type(e).__name__}: {e} - the reader thread ends, the batch and every later notification are lost"]
     rest = []
     while True:
         x = buf._queue.remove(lambda e: True)
